@@ -42,7 +42,7 @@ func c16RandChildren(rnd *rand.Rand, fmtName string, maxCh, maxAt int) []wpw.Chi
 }
 
 func c16RandTable(rnd *rand.Rand, maxDim int) wpw.Tbl {
-	t := wpw.Tbl{Rows: 1 + rnd.Intn(maxDim), Cols: 1 + rnd.Intn(maxDim), Hm: [][]int{}, Vm: [][]int{}, Mp: [][]int{}}
+	t := wpw.Tbl{Rows: 1 + rnd.Intn(maxDim), Cols: 1 + rnd.Intn(maxDim), Hm: [][]int{}, Vm: [][]int{}, Mp: [][]int{}, Rc: [][]int{}}
 	used := map[[2]int]bool{}
 	for k := 0; k < 3; k++ {
 		r, c := 1+rnd.Intn(t.Rows), 1+rnd.Intn(t.Cols)
@@ -64,6 +64,9 @@ func c16RandTable(rnd *rand.Rand, maxDim int) wpw.Tbl {
 			if g[r-1][c-1].Kind == "a" && rnd.Intn(4) == 0 {
 				t.Mp = append(t.Mp, []int{r, c})
 			}
+			if g[r-1][c-1].Kind == "a" && rnd.Intn(5) == 0 {
+				t.Rc = append(t.Rc, []int{r, c})
+			}
 		}
 	}
 	return t
@@ -75,7 +78,7 @@ func c16RandDoc(rnd *rand.Rand, fmtName string, blocks int) wpw.Doc {
 	if fmtName == "docx" {
 		hows = append(hows, "custom2")
 	}
-	noTbl := wpw.Tbl{Hm: [][]int{}, Vm: [][]int{}, Mp: [][]int{}}
+	noTbl := wpw.Tbl{Hm: [][]int{}, Vm: [][]int{}, Mp: [][]int{}, Rc: [][]int{}}
 	for len(d.Body) < blocks {
 		switch rnd.Intn(6) {
 		case 0, 1:
